@@ -298,9 +298,13 @@ ADDED = {
  "C04": " The IOCB half (IOQ.tla: confirmed and unconfirmed requests through IOCBs, direct unconfirmed requests; AtMostOneCompletion, "
         "OneActivePerDestination, NoStall, NoResidue, OutcomeOnlyFromReply, EventuallyAllDone) is model-checked and bound by recorded "
         "ApplicationIOController runs with every single fault; a last scenario lets the library's own scheduler run 2-8 concurrent requests "
-        "with answering and silent peers and compares every outcome instant with TSM.tla's timer semantics (BoundedTime).",
+        "with answering and silent peers and compares every outcome instant with TSM.tla's timer semantics (BoundedTime). Round 6: requests "
+        "the stack refuses on the spot (TSM.tla SubmitRefused) have their one outcome and leave nothing; requests chained from completion "
+        "callbacks (IOCB rig op chained) under single and double faults.",
  "C05": " Long requests whose short reply is lost or late (the whole request is repeated) and a wall-clock budget that turns a transfer "
-        "that never ends into a Terminates verdict were added after the second seeding round.",
+        "that never ends into a Terminates verdict were added after the second seeding round. Round 6: a delayed frame is a straggler "
+        "that is reordered (TSM.tla Delay / DeliverableAt) and turns up inside the other phase of the transfer; a request within the peer's "
+        "known limits (trace input feasible) is taken on (RefusedThoughFeasible).",
  "C11": " DirectionRespected: an abort / segment ack without the server bit never touches one of the node's own requests. One level up, "
         "IOQ.tla's OutcomeOnlyFromReply is validated on ApplicationIOController runs with several requests outstanding to one peer and "
         "unconfirmed traffic in between (every finished IOCB holds the answer to its own request).",
@@ -309,7 +313,9 @@ ADDED = {
  "C19": " A third rig keeps packets parked behind an outstanding Who-Is-Router across the history: an announcement must release them to "
         "the announcing router (ParkedReleased) and later packets must go out as soon as a route is known, however it was learned.",
  "C10": " Segmented answers are followed by every kind of segment ack (sequence number in / beyond the window / beyond the answer, window "
-        "0..255, negative, wrong direction bit) and aborts: the transfer counts as one logical reply (SegTransfer) and must leave nothing behind.",
+        "0..255, negative, wrong direction bit) and aborts: the transfer counts as one logical reply (SegTransfer) and must leave nothing behind. "
+        "Round 6: a segmented request received completely and in order (role last, judged by TLC on the octets) is answered, also when "
+        "the sender's I-Am is filed between its segments.",
  "C14": " Configuration h (trace validation only): 12 one-shot timers of very different lengths, most of them stopped again from the middle "
         "of the heap, validated against the same monitors.",
  "C15": " The store object also owns a computed property (ReadProperty overridden, nothing in the value table), so that selector expansion "
